@@ -489,6 +489,11 @@ def verify_function(interp, contract: Contract, inst: Instance, prop_prefix=""):
         if has_dask_input(args, kwargs) and not getattr(contract, "forcing_allowed", False):
             forces = [e[1] for e in ctx.events if e[0] == "force"]
             ctx.oblige("dask.no-forcing-operation", not forces, "typestate", {"forcing": forces[:5]})
+        if getattr(contract, "fresh_result", False) and got.kind == "return":
+            # statelessness (C11): what is handed to the caller is the caller's -- it must not be memory a cache
+            # (functools.lru_cache / cache) keeps and hands out again
+            shared = sorted({str(t) for a in arrays_of(got.value) for t in (a.owner or ()) if str(t).startswith("cache:")})
+            ctx.oblige("frame.result-not-cache-memory", not shared, "frame", {"shared_with": shared[:3]})
         if contract.theorems is not None and got.kind == "return" and want.kind == "return":
             contract.theorems(c, got.value, *pristine_args, **pristine_kwargs)
         check_inputs_unchanged(interp, ctx, args, kwargs, pristine_args, pristine_kwargs)
@@ -516,6 +521,21 @@ def verify_function(interp, contract: Contract, inst: Instance, prop_prefix=""):
             rep.obligations.append(ob)
     rep.gen_time = time.time() - t0
     return rep
+
+
+def arrays_of(v, depth=0):
+    """every symbolic array reachable from a value (signal fields, quantities, tuples)"""
+    from .values import Qty
+    if isinstance(v, SArr):
+        yield v
+    elif isinstance(v, Qty):
+        yield from arrays_of(v.val, depth + 1)
+    elif isinstance(v, Obj) and depth < 3:
+        for x in v.fields.values():
+            yield from arrays_of(x, depth + 1)
+    elif isinstance(v, (tuple, list)):
+        for x in v:
+            yield from arrays_of(x, depth + 1)
 
 
 def has_dask_input(args, kwargs):
